@@ -775,6 +775,9 @@ class Walker:
                     out.extend(self.inline_call(op, callee, recv_cls, recv_val, s3, exits))
                     continue
                 self._maybe_raise(self.model.call_raises(self, op, s3), op, s3, exits)
+                if not self._pure_call(val):
+                    # an opaque call may change any field: forget facts about attribute paths
+                    s3 = self.invalidate_field_facts(s3)
                 if call_name(val) == 'super':
                     tok = self.token('c', ('call', val, op, s3.recv, s3.env.get('self', mk_name('self'))))
                 else:
@@ -1050,6 +1053,19 @@ class Walker:
             self._count()
         return out
 
+    PURE_METHODS = {'get', 'keys', 'values', 'items', 'startswith', 'endswith', 'lower', 'upper', 'strip', 'lstrip',
+                    'rstrip', 'split', 'rsplit', 'partition', 'rpartition', 'replace', 'format', 'find', 'rfind', 'count',
+                    'isdigit', 'join', 'encode', 'decode', 'copy', 'index', 'tell', 'fileno', 'match', 'search',
+                    'groupdict', 'group', 'splitlines', '__contains__', '__len__', '__getitem__'}
+
+    def _pure_call(self, val):
+        name = call_name(val)
+        if name in NO_RAISE_CALLS or name in ('getattr', 'next', 'hash', 'repr', 'int', 'float', 'super'):
+            return name != 'next'
+        if isinstance(val.func, ast.Attribute) and val.func.attr in self.PURE_METHODS:
+            return True
+        return False
+
     def invalidate_field_facts(self, st):
         if not st.facts:
             return st
@@ -1083,6 +1099,7 @@ class Walker:
             tv = ast.Subscript(value=bv, slice=sl, ctx=ast.Store())
             op = Op('sub_store', tgt, val=tv, info=val)
             s = s.push(op)
+            s = self.invalidate_field_facts(s)
             self._maybe_raise(self.model.sub_raises(self, op, s), op, s, exits)
             return s
         if isinstance(tgt, (ast.Tuple, ast.List)):
